@@ -10,6 +10,14 @@
 //             the harness answers I ok
 //   center  : FlexPath::element_center against the centre line computed here (F13)
 //   gds/oas : the path saved as PATH record through Library::write_gds / write_oas, read back
+//   fn      : per element: the same spine / widths / offsets with the user-callback styles EndType::Function,
+//             JoinType::Function, BendType::Function (section "user-callback styles" below): the callbacks record their
+//             arguments and what they return and reproduce a built-in style from their arguments alone; P-lines FAIL
+//             flexpath-fn-end-args / -join-args / -bend-args (arguments against the geometry recomputed here in long double),
+//             flexpath-fn-end-order / -join-splice / -bend-splice (every returned point in the outline, in the documented order,
+//             on the side the call was made for), flexpath-fn-twin (outline against the outline of the built-in twin style);
+//             for part of them a `region` case (payload g=<seed>:<index>:fn:<element>) puts the callback outline through the
+//             extracted oracle with the expectations of the built-in twin
 // Every random choice derives from (seed, path index): payloads start with g=<seed>:<index> and a
 // replay regenerates exactly that path.
 // Grid: doubles are multiplied by 2^30 (exact) and rounded to the nearest integer (error <= 2^-31 per coordinate,
@@ -49,6 +57,9 @@ struct Emit {
     void I(const std::string& s) { fprintf(o, "I\t%s\n", s.c_str()); }
     void P(const std::string& s) { fprintf(o, "P\t%s\n", s.c_str()); }
     void T(const std::string& s) { fprintf(o, "T\t%s\n", s.c_str()); }
+    void Tn(const std::string& s, long n) {  // a statistics counter raised by n
+        if (n > 0) fprintf(o, "T\t%s\t%ld\n", s.c_str(), n);
+    }
 };
 
 // ------------------------------------------------------------------ path recipe
@@ -643,7 +654,7 @@ static std::string hexpts(const std::vector<V>& v) {
 static const char* join_name(JoinType j) { return join_type_name(j); }
 
 // ------------------------------------------------------------------ region case for one element
-static void region_case(Builder& B, uint64_t e, const std::string& gid, Polygon* poly, Emit& em) {
+static void region_case(Builder& B, uint64_t e, const std::string& gid, Polygon* poly, Emit& em, const std::string& tp = "") {
     FlexPath& fp = B.fp;
     const ElemCfg& cfg = B.el[e];
     const Vec2* wo = fp.elements[e].half_width_and_offset.items;
@@ -662,7 +673,7 @@ static void region_case(Builder& B, uint64_t e, const std::string& gid, Polygon*
         }
     }
     if (C.borderline) {
-        em.T("region-skipped-borderline-bend");
+        em.T(tp + "region-skipped-borderline-bend");
         return;
     }
     ld tol = B.tol;
@@ -673,7 +684,7 @@ static void region_case(Builder& B, uint64_t e, const std::string& gid, Polygon*
     ld reach = 1;
     ld th = C.theta_max + 2 * atanl(C.slope_max);
     if (th > 2.6L) {
-        em.T("region-skipped-sharp-turn");
+        em.T(tp + "region-skipped-sharp-turn");
         return;
     }
     switch (cfg.join) {
@@ -730,13 +741,13 @@ static void region_case(Builder& B, uint64_t e, const std::string& gid, Polygon*
         // (NaN when they coincide to an ulp, overshoot of many widths otherwise)
         spiky = true;
         flag_key = "FlexPath::to_polygons:smooth-join-degenerate";
-        em.T("flagged-smooth-join-between-close-side-points");
+        em.T(tp + "flagged-smooth-join-between-close-side-points");
     }
     if (C.runaway && !spiky) {
         // no outline vertex is far from the spine, but the construction is ill-conditioned here (see Centre::why):
         // a disagreement of the region check on this element is attributed to that
         spiky = true;
-        em.T("flagged-corner-runaway-geometry");
+        em.T(tp + "flagged-corner-runaway-geometry");
     }
     size_t m = C.pts.size();
     std::vector<ld> rc(m - 1), rf(m - 1);
@@ -915,15 +926,15 @@ static void region_case(Builder& B, uint64_t e, const std::string& gid, Polygon*
     std::string payload = gid + ":" + std::to_string(e) + ";band=" + (round_join ? "0" : "1") + ";O=" + hexpts(outline) +
                           ";C=" + hexpts(ccov) + ";E=" + hexpts(cext) + ";RC=" + radii(rcc) + ";RF=" + radii(rfe) +
                           ";PL=" + planes + ";K0=" + capstr[0] + ";K1=" + capstr[1] + ";S=" + hexpts(smp);
-    if (spiky) em.T(std::string("spiky-in-family-") + (B.family == 0 ? "polyline" : (B.family == 1 ? "curved" : "mixed")));
+    if (spiky) em.T(tp + std::string("spiky-in-family-") + (B.family == 0 ? "polyline" : (B.family == 1 ? "curved" : "mixed")));
     em.K(spiky ? "region_flagged" : "region", spiky ? "k=" + flag_key + ";" + payload : payload);
     em.I("ok");
-    em.T(std::string("region-join-") + join_name(cfg.join));
-    em.T(std::string("region-end-") + end_type_name(cfg.end));
-    em.T(std::string("region-bend-") + (cfg.bend == BendType::None ? "none" : "circular"));
+    em.T(tp + std::string("region-join-") + join_name(cfg.join));
+    em.T(tp + std::string("region-end-") + end_type_name(cfg.end));
+    em.T(tp + std::string("region-bend-") + (cfg.bend == BendType::None ? "none" : "circular"));
     int nb = 0;
     for (int x : C.bent) nb += x;
-    if (nb) em.T("region-with-fitting-bend");
+    if (nb) em.T(tp + "region-with-fitting-bend");
 }
 
 // ------------------------------------------------------------------ centre line of the implementation
@@ -1046,6 +1057,634 @@ static void record_case(Builder& B, bool oas, const std::string& gid, const std:
     back.free_all();
     em.I(fail.empty() ? "ok" : "differs");
     em.P(fail.empty() ? "ok" : fail);
+}
+
+// ------------------------------------------------------------------ user-callback styles
+// How FlexPath::to_polygons uses the three callbacks (src/flexpath.cpp; typedefs and argument lists in include/gdstk/utils.hpp):
+//  * end_function(first_point, first_direction, second_point, second_direction, data) is called twice per element.  First end:
+//    (cap_l, dir_l, cap_r, dir_r) with cap_l/r = p0 +- n0 hw[0], dir_l pointing out of the path along its left edge and dir_r
+//    into the path along its right edge.  Last end: (cap_r, dir_r, cap_l, dir_l), the mirror image (right edge out, left edge
+//    in).  The returned points are the WHOLE cap, the two side points included if the callback wants them (nothing else is
+//    appended), going from first_point to second_point.  The outline is right side forward, then the left side backwards, so
+//    both caps appear in it in the order the callback returned them: the first cap at the very beginning, the last cap between
+//    the last right-side and the last left-side point (to_polygons reverses it in place before appending it to the left side,
+//    which is itself reversed when the two sides are merged).
+//  * join_function(edge0_end, edge0_direction, edge1_start, edge1_direction, centre, width, data) is called at every vertex
+//    without a fitting bend, for the right side when tr0 x tr1 >= 0 and for the left side when tl0 x tl1 <= 0 (outer side or
+//    straight through), right side first; edge points are centre -+ n0 hw and centre -+ n1 hw.  The returned points are appended
+//    to that side in travelling order and replace the corner (the two edge points included if wanted).
+//  * bend_function(radius, initial_angle, final_angle, centre, data) is called twice at every vertex whose bend fits: for the
+//    right side (radius R + d hw, d = +1 for a left turn) and then for the left side (radius R - d hw), R = bend_radius - d offset;
+//    the angles are those of -+n0 and -+n1 seen from the centre, final - initial = signed turn.  The returned points are
+//    appended to that side in travelling order (the tangent points included if wanted).
+// The callbacks below record every call and return, from their arguments alone, the points a built-in style would have produced
+// (or a polygonal cap with 1..7 points whose region equals that of a flush / extended cap).
+struct FnCall {
+    int type;  // 0 end, 1 join, 2 bend
+    Vec2 p0, d0, p1, d1, c;
+    double w, radius, ia, fa;
+    std::vector<Vec2> ret;
+    int side;    // assigned by the harness from the geometry: -1 right, +1 left
+    int vertex;
+    uint64_t lib_count;  // bend, own point count: how many points the library's Circular bend emits for the same arguments
+};
+struct FnData {
+    std::vector<FnCall> log;
+    int end_mode;  // 0 flush, 1 half-width, 2 extended, 3 polygonal cap with k[end] points
+    int k[2];
+    double ext[2];
+    int end_calls;
+    int join_mode;  // 0 natural, 1 miter, 2 bevel
+    int bend_mode;  // 0 the library's own Curve::arc, 1 an arc polyline of our own point count
+    double tol;
+};
+static Array<Vec2> fn_array(const std::vector<Vec2>& v) {
+    Array<Vec2> r = {};
+    r.ensure_slots(v.size() + 1);
+    for (const Vec2& p : v) r.append(p);
+    return r;
+}
+static Array<Vec2> fn_end(const Vec2 first, const Vec2 dfirst, const Vec2 second, const Vec2 dsecond, void* data) {
+    FnData* D = (FnData*)data;
+    int which = D->end_calls++ ? 1 : 0;
+    FnCall c = {};
+    c.type = 0;
+    c.p0 = first; c.d0 = dfirst; c.p1 = second; c.d1 = dsecond;
+    Vec2 across = first - second;
+    double hw = 0.5 * across.length();
+    across.normalize();
+    // first end: first = left side, across = n0, ortho(n0) = -t0; last end: first = right side, across = -n0, ortho = t0
+    Vec2 outw = across.ortho();
+    std::vector<Vec2>& pts = c.ret;
+    int mode = D->end_mode;
+    double ext = mode == 1 ? hw : D->ext[which];
+    if (mode == 0 || (mode == 3 && D->k[which] == 2)) {
+        pts = {first, second};
+    } else if (mode == 1 || mode == 2) {
+        if (ext > 0) pts = {first, first + ext * outw, second + ext * outw, second};
+        else pts = {first + ext * outw, second + ext * outw};
+    } else {
+        int k = D->k[which];
+        if (k == 1) pts = {0.5 * (first + second) + ext * outw};
+        else if (k == 3) pts = {first, 0.5 * (first + second), second};
+        else {
+            Vec2 c0 = first + ext * outw, c1 = second + ext * outw;
+            pts.push_back(first);
+            pts.push_back(c0);
+            for (int j = 1; j <= k - 4; j++) pts.push_back(c0 + ((double)j / (double)(k - 3)) * (c1 - c0));
+            pts.push_back(c1);
+            pts.push_back(second);
+        }
+    }
+    Array<Vec2> res = fn_array(c.ret);
+    D->log.push_back(std::move(c));
+    return res;
+}
+static Array<Vec2> fn_join(const Vec2 e0, const Vec2 d0, const Vec2 e1, const Vec2 d1, const Vec2 centre, double width, void* data) {
+    FnData* D = (FnData*)data;
+    FnCall c = {};
+    c.type = 1;
+    c.p0 = e0; c.d0 = d0; c.p1 = e1; c.d1 = d1; c.c = centre; c.w = width;
+    double u0, u1;
+    if (D->join_mode == 2) {
+        c.ret = {e0, e1};
+    } else if (D->join_mode == 1) {
+        segments_intersection(e0, d0, e1, d1, u0, u1);
+        c.ret = {0.5 * (e0 + u0 * d0 + e1 + u1 * d1)};
+    } else {
+        segments_intersection(e0, d0, e1, d1, u0, u1);
+        const double half_width = 0.5 * width;
+        u1 = -u1;
+        if (u0 <= half_width && u1 <= half_width) c.ret = {0.5 * (e0 + u0 * d0 + e1 - u1 * d1)};
+        else c.ret = {e0 + (u0 > half_width ? half_width : u0) * d0, e1 - (u1 > half_width ? half_width : u1) * d1};
+    }
+    Array<Vec2> res = fn_array(c.ret);
+    D->log.push_back(std::move(c));
+    return res;
+}
+static Array<Vec2> fn_bend(double radius, double ia, double fa, const Vec2 centre, void* data) {
+    FnData* D = (FnData*)data;
+    FnCall c = {};
+    c.type = 2;
+    c.radius = radius; c.ia = ia; c.fa = fa; c.c = centre;
+    if (D->bend_mode == 0) {
+        Curve cv = {};
+        cv.tolerance = D->tol;
+        cv.append(centre + Vec2{radius * cos(ia), radius * sin(ia)});
+        cv.arc(radius, radius, ia, fa, 0);
+        for (uint64_t i = 0; i < cv.point_array.count; i++) c.ret.push_back(cv.point_array[i]);
+        cv.clear();
+    } else {
+        {
+            Curve cv = {};
+            cv.tolerance = D->tol;
+            cv.append(centre + Vec2{radius * cos(ia), radius * sin(ia)});
+            cv.arc(radius, radius, ia, fa, 0);
+            c.lib_count = cv.point_array.count;
+            cv.clear();
+        }
+        double cc = 1 - D->tol / radius;
+        double a = cc < -1 ? M_PI : acos(cc);
+        if (!(a > 1e-6)) a = 1e-6;
+        double sweep = fa - ia;
+        double ns = ceil(fabs(sweep) / (2 * a)) + 1;
+        int nseg = ns < 1 ? 1 : (ns > 20000 ? 20000 : (int)ns);
+        for (int j = 0; j <= nseg; j++) {
+            double ang = ia + sweep * (double)j / (double)nseg;
+            c.ret.push_back(centre + Vec2{radius * cos(ang), radius * sin(ang)});
+        }
+    }
+    Array<Vec2> res = fn_array(c.ret);
+    D->log.push_back(std::move(c));
+    return res;
+}
+
+// displaced segments and corner points of one element, in long double from the implementation's arrays
+struct Geo {
+    std::vector<V> a, b, t, c;
+    bool ill = false;  // a corner whose two displaced lines are almost, but not exactly, parallel (decision threshold 1e-8 in the C++)
+};
+static Geo displaced(const Array<Vec2>& sp, const Vec2* wo) {
+    Geo G;
+    uint64_t n = sp.count;
+    G.a.resize(n - 1); G.b.resize(n - 1); G.t.resize(n - 1); G.c.resize(n);
+    for (uint64_t i = 0; i + 1 < n; i++) {
+        V s0 = {sp[i].x, sp[i].y}, s1 = {sp[i + 1].x, sp[i + 1].y};
+        V nrm = unitl(orthol(s1 - s0));
+        G.a[i] = s0 + nrm * (ld)wo[i].v;
+        G.b[i] = s1 + nrm * (ld)wo[i + 1].v;
+        G.t[i] = unitl(G.b[i] - G.a[i]);
+    }
+    G.c[0] = G.a[0];
+    G.c[n - 1] = G.b[n - 2];
+    for (uint64_t k = 1; k + 1 < n; k++) {
+        ld den = crossl(G.t[k - 1], G.t[k]);
+        if (fabsl(den) >= 1e-8L) {
+            ld u0 = crossl(G.a[k] - G.b[k - 1], G.t[k]) / den;
+            G.c[k] = G.b[k - 1] + G.t[k - 1] * u0;
+        } else {
+            G.c[k] = (G.b[k - 1] + G.a[k]) * 0.5L;
+        }
+        if (fabsl(den) > 1e-10L && fabsl(den) < 1e-6L) G.ill = true;
+    }
+    return G;
+}
+
+static std::string fmtv(V v) {
+    char b[96];
+    snprintf(b, sizeof b, "(%.12Lg, %.12Lg)", v.x, v.y);
+    return b;
+}
+static std::string fmtd(ld v) {
+    char b[48];
+    snprintf(b, sizeof b, "%.12Lg", v);
+    return b;
+}
+static inline V toV(Vec2 p) { return V{p.x, p.y}; }
+static bool nearv(Vec2 got, V want, ld lim) { return std::isfinite(got.x) && std::isfinite(got.y) && fabsl((ld)got.x - want.x) <= lim && fabsl((ld)got.y - want.y) <= lim; }
+static bool same_pt(Vec2 a, Vec2 b) { return a.x == b.x && a.y == b.y; }
+
+static void fn_cases(Builder& B, const std::string& gid, uint64_t seed, uint64_t idx, Emit& em) {
+    // a random stream of its own: the cases above are the same with and without this section
+    Rng gf(seed * 1000003ULL + idx * 7919ULL + 424243ULL);
+    FlexPath& fp = B.fp;
+    const uint64_t n = B.n;
+    const Array<Vec2>& sp = fp.spine.point_array;
+    if (sp.count < 2) return;
+    std::vector<FnData> D(n);
+    std::vector<ElemCfg> twin(n);
+    std::vector<char> fnjoin(n), fnbend(n), has_twin(n);
+    static const JoinType tj[] = {JoinType::Natural, JoinType::Miter, JoinType::Bevel};
+    for (uint64_t e = 0; e < n; e++) {
+        const ElemCfg& cfg = B.el[e];
+        FnData& d = D[e];
+        twin[e] = cfg;
+        d.tol = B.tol;
+        d.end_calls = 0;
+        int r = (int)gf.below(10);
+        bool asan_bevel = false;
+        d.k[0] = 1 + (int)gf.below(7);
+        d.k[1] = 1 + (int)gf.below(7);
+        d.ext[0] = 0.25 * (double)(1 + gf.below(8));
+        d.ext[1] = 0.25 * (double)(1 + gf.below(8));
+#if defined(__SANITIZE_ADDRESS__)
+        // Curve::segment(Array) ends with last_ctrl = point_array[count - 2] (src/curve.cpp): when the callback's result is ONE point and the side
+        // curve was still empty, that reads sixteen bytes in front of the buffer.  to_polygons gets there with a one-point end cap (first end; last
+        // end of a two-point spine) and, far more often, with a one-point join (a mitre) at the first corner whose outer side is the left one: the
+        // left side holds nothing before its first join.  The value is never used and a plain build reads the allocator's header, but an
+        // address-sanitizer build aborts and the child takes every case of its path with it.  Under the sanitizer only one path in sixteen keeps
+        // one-point results (and reports the crash); the others get two-point caps and bevel joins.
+        if (idx % 16 != 5) {
+            if (d.k[0] == 1) d.k[0] = 2;
+            if (d.k[1] == 1) d.k[1] = 2;
+            asan_bevel = true;
+        }
+#endif
+        has_twin[e] = 1;
+        if (r == 0) {
+            d.end_mode = 0;
+            twin[e].end = EndType::Flush;
+        } else if (r == 1) {
+            d.end_mode = 1;
+            twin[e].end = EndType::HalfWidth;
+        } else if (r <= 3) {
+            d.end_mode = 2;
+            if (cfg.end == EndType::Extended || gf.coin()) { d.ext[0] = cfg.ext.u; d.ext[1] = cfg.ext.v; }  // zero extensions among them
+            twin[e].end = EndType::Extended;
+            twin[e].ext = Vec2{d.ext[0], d.ext[1]};
+        } else {
+            d.end_mode = 3;
+            twin[e].end = EndType::Extended;  // 2 and 3 points: the flush region (extension 0); 4 and more: the extended region
+            twin[e].ext = Vec2{d.k[0] >= 4 ? d.ext[0] : 0, d.k[1] >= 4 ? d.ext[1] : 0};
+            if (d.k[0] == 1 || d.k[1] == 1) has_twin[e] = 0;
+        }
+        fnjoin[e] = gf.chance(70);
+        d.join_mode = (int)gf.below(3);
+        if (asan_bevel) d.join_mode = 2;
+        if (fnjoin[e]) twin[e].join = tj[d.join_mode];
+        d.bend_mode = (int)gf.below(2);
+        fnbend[e] = cfg.bend == BendType::Circular ? gf.chance(80) : gf.chance(30);
+        if (fnbend[e]) twin[e].bend = BendType::Circular;
+    }
+    auto styles = [&](int what) {  // 0 restore, 1 built-in twin, 2 callbacks
+        for (uint64_t e = 0; e < n; e++) {
+            FlexPathElement& el = fp.elements[e];
+            const ElemCfg& c = what == 0 ? B.el[e] : twin[e];
+            el.join_type = c.join; el.end_type = c.end; el.end_extensions = c.ext; el.bend_type = c.bend;
+            el.join_function = NULL; el.join_function_data = NULL;
+            el.end_function = NULL; el.end_function_data = NULL;
+            el.bend_function = NULL; el.bend_function_data = NULL;
+            if (what == 2) {
+                el.end_type = EndType::Function; el.end_function = fn_end; el.end_function_data = &D[e];
+                if (fnjoin[e]) { el.join_type = JoinType::Function; el.join_function = fn_join; el.join_function_data = &D[e]; }
+                if (fnbend[e]) { el.bend_type = BendType::Function; el.bend_function = fn_bend; el.bend_function_data = &D[e]; }
+            }
+        }
+    };
+    Array<Polygon*> pref = {}, pfn = {};
+    styles(1);
+    ErrorCode e1 = fp.to_polygons(false, 0, pref);
+    styles(2);
+    ErrorCode e2 = fp.to_polygons(false, 0, pfn);
+    styles(0);
+    auto release = [&](Array<Polygon*>& a) {
+        for (uint64_t i = 0; i < a.count; i++) {
+            a[i]->clear();
+            free_allocation(a[i]);
+        }
+        a.clear();
+    };
+    if (e1 != ErrorCode::NoError || e2 != ErrorCode::NoError || pref.count != n || pfn.count != n) {
+        em.K("fn", gid + ":all");
+        em.I("error");
+        em.P("FAIL flexpath-to_polygons-error to_polygons with callback styles (or their built-in twins) returned an error or the wrong number of polygons");
+        release(pref);
+        release(pfn);
+        return;
+    }
+    static const char* endm[] = {"flush", "half-width", "extended", "poly"};
+    static const char* joinm[] = {"natural", "miter", "bevel"};
+    for (uint64_t e = 0; e < n; e++) {
+        FnData& d = D[e];
+        const Vec2* wo = fp.elements[e].half_width_and_offset.items;
+        const uint64_t np = sp.count;
+        Centre C = centre_line(sp, wo, twin[e].bend, twin[e].bend_radius, B.tol, false);
+        if (C.borderline) {
+            em.T("fn:skipped-borderline-bend");
+            continue;
+        }
+        Geo G = displaced(sp, wo);
+        std::vector<FnCall>& log = d.log;
+        const Array<Vec2>& of = pfn[e]->point_array;
+        const Array<Vec2>& orf = pref[e]->point_array;
+        ld scale = 1;
+        for (uint64_t i = 0; i < np; i++) scale = std::max(scale, std::max(fabsl((ld)sp[i].x), fabsl((ld)sp[i].y)));
+        const ld plim = 1e-6L * scale, dlim = 1e-6L;
+        std::string fail;
+        char buf[64];
+        snprintf(buf, sizeof buf, ";end=%s;k=%d,%d", endm[d.end_mode], d.end_mode == 3 ? d.k[0] : 0, d.end_mode == 3 ? d.k[1] : 0);
+        std::string payload = gid + ":" + std::to_string(e) + buf + ";join=" + (fnjoin[e] ? joinm[d.join_mode] : "builtin") +
+                              ";bend=" + (fnbend[e] ? (d.bend_mode ? "npts" : "arc") : "builtin");
+        em.K("fn", payload);
+        em.T("fn:end");
+        em.T(std::string("fn:end-") + endm[d.end_mode]);
+        if (d.end_mode == 3) {
+            em.T("fn:end-first-k" + std::to_string(d.k[0]));
+            em.T("fn:end-last-k" + std::to_string(d.k[1]));
+        }
+        if (fnjoin[e]) em.T(std::string("fn:join"));
+        if (fnbend[e]) em.T(std::string("fn:bend"));
+
+        // ---- (1) the calls and their arguments
+        size_t nend = 0;
+        for (auto& c : log) nend += c.type == 0;
+        if (log.size() < 2 || nend != 2 || log.front().type != 0 || log.back().type != 0) {
+            fail = "FAIL flexpath-fn-end-args the end function must be called once before and once after all joins and bends: " + std::to_string(nend) +
+                   " end calls among " + std::to_string(log.size());
+        }
+        // location of a call: vertex k >= 1 with side -1 right / +1 left, or k = 0 first end, k = -1 last end (text built on failure only)
+        auto loc = [&](int64_t k, int side) {
+            std::string w = "element " + std::to_string(e);
+            if (k == 0) return w + " first end";
+            if (k < 0) return w + " last end";
+            return w + " vertex " + std::to_string(k) + (side < 0 ? " right side" : " left side");
+        };
+        auto chk_pt = [&](const char* key, int64_t k, int side, const char* what, Vec2 got, V want) {
+            if (fail.empty() && !nearv(got, want, plim))
+                fail = std::string("FAIL ") + key + " " + loc(k, side) + ": " + what + " is " + fmtv(toV(got)) + ", the geometry gives " + fmtv(want);
+        };
+        auto chk_dir = [&](const char* key, int64_t k, int side, const char* what, Vec2 got, V want) {
+            if (fail.empty() && !nearv(got, want, dlim))
+                fail = std::string("FAIL ") + key + " " + loc(k, side) + ": " + what + " is " + fmtv(toV(got)) + ", the geometry gives " + fmtv(want);
+        };
+        bool args_checked = !G.ill;
+        if (G.ill) em.T("fn:args-skipped-almost-parallel-corner");
+        if (fail.empty() && args_checked) {
+            const char* key = "flexpath-fn-end-args";
+            {  // first end: (cap_l, dir_l, cap_r, dir_r)
+                V n0 = orthol(G.t[0]);
+                V capl = G.a[0] + n0 * (ld)wo[0].u, capr = G.a[0] - n0 * (ld)wo[0].u;
+                V dl = unitl(capl - (G.b[0] + n0 * (ld)wo[1].u)), dr = unitl((G.b[0] - n0 * (ld)wo[1].u) - capr);
+                chk_pt(key, 0, 0, "first point (left side)", log.front().p0, capl);
+                chk_dir(key, 0, 0, "first direction (left edge, out of the path)", log.front().d0, dl);
+                chk_pt(key, 0, 0, "second point (right side)", log.front().p1, capr);
+                chk_dir(key, 0, 0, "second direction (right edge, into the path)", log.front().d1, dr);
+            }
+            {  // last end: (cap_r, dir_r, cap_l, dir_l)
+                uint64_t s = np - 2, last = np - 1;
+                V n0 = orthol(G.t[s]);
+                V capl = G.b[s] + n0 * (ld)wo[last].u, capr = G.b[s] - n0 * (ld)wo[last].u;
+                V dr = unitl(capr - (G.a[s] - n0 * (ld)wo[last - 1].u)), dl = unitl((G.a[s] + n0 * (ld)wo[last - 1].u) - capl);
+                chk_pt(key, -1, 0, "first point (right side)", log.back().p0, capr);
+                chk_dir(key, -1, 0, "first direction (right edge, out of the path)", log.back().d0, dr);
+                chk_pt(key, -1, 0, "second point (left side)", log.back().p1, capl);
+                chk_dir(key, -1, 0, "second direction (left edge, into the path)", log.back().d1, dl);
+            }
+        }
+        int njoin = 0, nbend = 0, nbend_npts = 0, nstraight = 0;
+        bool sides_known = false;
+        if (fail.empty()) {
+            size_t ptr = 1, endp = log.size() - 1;
+            sides_known = true;
+            for (uint64_t k = 1; k + 1 < np && fail.empty(); k++) {
+                V t0 = G.t[k - 1], t1 = G.t[k], n0 = orthol(t0), n1 = orthol(t1), p = G.c[k];
+                ld hwk = wo[k].u;
+                ld cr = crossl(t0, t1), dirn = cr < 0 ? -1 : 1;
+                ld theta = atan2l(fabsl(cr), dotl(t0, t1));
+                bool bent = C.bent[k], lenient = false, straight_bend = false;
+                if (theta < 1e-7L && twin[e].bend != BendType::None) {
+                    // straight-through vertex: the sign of t0 x t1 (the bend direction, hence the centre-line radius bend_radius -+ offset and the
+                    // fits test) is decided by the last bit in the C++; either way the arc has no length.  Take what the implementation did.
+                    lenient = true;
+                    bent = false;
+                    if (fnbend[e] && ptr + 1 < endp && log[ptr].type == 2 && log[ptr + 1].type == 2 && same_pt(log[ptr].c, log[ptr + 1].c) &&
+                        fabsl(0.5L * ((ld)log[ptr].radius + (ld)log[ptr + 1].radius) - lenl(toV(log[ptr].c) - p)) <= plim &&
+                        fabsl(fabsl((ld)log[ptr].radius - (ld)log[ptr + 1].radius) - 2 * hwk) <= plim)
+                        bent = straight_bend = true;
+                }
+                if (bent) {
+                    if (!fnbend[e]) continue;
+                    const char* key = "flexpath-fn-bend-args";
+                    ld R = (ld)twin[e].bend_radius - dirn * (ld)wo[k].v;
+                    ld L = R * tanl(theta / 2);
+                    V ctr = (p - t0 * L) + n0 * (dirn * R);
+                    V nstart = n0 * (-dirn);  // the arc starts at centre - d n0
+                    ld ia = atan2l(nstart.y, nstart.x);
+                    for (int side = -1; side <= 1 && fail.empty(); side += 2) {
+                        if (ptr >= endp || log[ptr].type != 2) {
+                            fail = std::string("FAIL ") + key + " " + loc(k, side) + ": the bend fits but the bend function was not called";
+                            break;
+                        }
+                        FnCall& c = log[ptr];
+                        ld rad = R - side * dirn * hwk;  // right: R + d hw, left: R - d hw
+                        if (straight_bend) nstraight++;
+                        if (args_checked && !straight_bend) {
+                            if (!(fabsl((ld)c.radius - rad) <= plim))
+                                fail = std::string("FAIL ") + key + " " + loc(k, side) + ": radius is " + fmtd(c.radius) + ", the geometry gives " + fmtd(rad) +
+                                       " (centre-line radius " + fmtd(R) + ", half width " + fmtd(hwk) + ")";
+                            chk_pt(key, k, side, "centre", c.c, ctr);
+                            ld dia = fmodl(fabsl((ld)c.ia - ia), 2 * M_PIl);
+                            if (dia > M_PIl) dia = 2 * M_PIl - dia;
+                            if (fail.empty() && !(dia <= dlim))
+                                fail = std::string("FAIL ") + key + " " + loc(k, side) + ": initial angle is " + fmtd(c.ia) + ", the geometry gives " + fmtd(ia);
+                            if (fail.empty() && !(fabsl(((ld)c.fa - (ld)c.ia) - dirn * theta) <= dlim))
+                                fail = std::string("FAIL ") + key + " " + loc(k, side) + ": final - initial angle is " + fmtd((ld)c.fa - (ld)c.ia) +
+                                       ", the signed turn is " + fmtd(dirn * theta);
+                        }
+                        c.side = side;
+                        c.vertex = (int)k;
+                        nbend++;
+                        if (d.bend_mode == 1) nbend_npts++;
+                        ptr++;
+                    }
+                } else {
+                    if (!fnjoin[e]) continue;
+                    const char* key = "flexpath-fn-join-args";
+                    for (int side = -1; side <= 1 && fail.empty(); side += 2) {
+                        ld s = side;
+                        V e0 = p + n0 * (s * hwk), e1 = p + n1 * (s * hwk);
+                        V q0 = G.c[k - 1] + n0 * (s * (ld)wo[k - 1].u), q1 = G.c[k + 1] + n1 * (s * (ld)wo[k + 1].u);
+                        V d0 = unitl(e0 - q0), d1 = unitl(q1 - e1);
+                        ld cr = crossl(d0, d1);
+                        // right side: outer when cr >= 0; left side: outer when cr <= 0
+                        ld outer = side < 0 ? cr : -cr;
+                        bool have = ptr < endp && log[ptr].type == 1;
+                        bool here = have && nearv(log[ptr].c, p, plim) && (nearv(log[ptr].p0, e0, plim) || nearv(log[ptr].p1, e0, plim));
+                        if (!args_checked) {
+                            // the corner points are not trusted here: take the call if it is one of this side
+                            if (have && nearv(log[ptr].p0, e0, 0.5L * hwk)) {
+                                log[ptr].side = side; log[ptr].vertex = (int)k; njoin++; ptr++;
+                            } else if (outer > 1e-6L) sides_known = false;
+                            continue;
+                        }
+                        if (lenient) {
+                            if (!(here && nearv(log[ptr].p0, e0, plim))) continue;
+                        } else if (outer > 1e-8L) {
+                            if (!have) {
+                                fail = std::string("FAIL ") + key + " " + loc(k, side) + ": outer side of a corner without bend, but the join function was not called";
+                                break;
+                            }
+                        } else if (outer < -1e-8L) {
+                            if (here && nearv(log[ptr].p0, e0, plim)) fail = std::string("FAIL ") + key + " " + loc(k, side) + ": the join function was called for the inner side of the corner";
+                            continue;
+                        } else if (!here) continue;
+                        FnCall& c = log[ptr];
+                        chk_pt(key, k, side, "first point (end of the incoming edge)", c.p0, e0);
+                        chk_dir(key, k, side, "first direction (incoming edge)", c.d0, d0);
+                        chk_pt(key, k, side, "second point (start of the outgoing edge)", c.p1, e1);
+                        chk_dir(key, k, side, "second direction (outgoing edge)", c.d1, d1);
+                        chk_pt(key, k, side, "centre", c.c, p);
+                        if (fail.empty() && !(fabsl((ld)c.w - 2 * hwk) <= 1e-9L * (1 + hwk)))
+                            fail = std::string("FAIL ") + key + " " + loc(k, side) + ": width is " + fmtd(c.w) + ", the element is " + fmtd(2 * hwk) + " wide at this vertex";
+                        c.side = side;
+                        c.vertex = (int)k;
+                        njoin++;
+                        ptr++;
+                    }
+                }
+            }
+            if (fail.empty() && ptr != endp) {
+                if (sides_known && args_checked)
+                    fail = std::string("FAIL ") + (log[ptr].type == 1 ? "flexpath-fn-join-args" : "flexpath-fn-bend-args") + " element " + std::to_string(e) + ": call " +
+                           std::to_string(ptr) + " of " + std::to_string(log.size()) + " (" + (log[ptr].type == 1 ? "join" : "bend") +
+                           " function) has no vertex that asks for it";
+                sides_known = false;
+            }
+        }
+        em.Tn("fn:join-calls", njoin);
+        em.Tn("fn:bend-calls", nbend);
+        em.Tn("fn:bend-calls-at-straight-vertex", nstraight);
+
+        // ---- (2) every returned point is in the outline, in the documented order and on the side the call was made for
+        bool finite = true;
+        for (uint64_t i = 0; i < of.count; i++) finite = finite && std::isfinite(of[i].x) && std::isfinite(of[i].y);
+        for (uint64_t i = 0; i < orf.count; i++) finite = finite && std::isfinite(orf[i].x) && std::isfinite(orf[i].y);
+        struct Run {
+            const FnCall* call;
+            bool rev;     // left side: the side runs backwards in the outline
+            uint64_t at;  // where the run was found
+            Vec2 pt(size_t j) const { return rev ? call->ret[call->ret.size() - 1 - j] : call->ret[j]; }
+            size_t size() const { return call->ret.size(); }
+        };
+        std::vector<Run> runs;
+        size_t icap1 = 0;
+        auto run_name = [&](size_t ri) {
+            const Run& r = runs[ri];
+            if (r.call->type == 0) return std::string(ri == 0 ? "first" : "last") + " end cap (" + std::to_string(r.size()) + " points)";
+            return std::string(r.call->type == 1 ? "join" : "bend") + " points of the " + (r.rev ? "left" : "right") + " side at vertex " + std::to_string(r.call->vertex) +
+                   (r.rev ? " (reversed: the left side runs backwards)" : "");
+        };
+        if (fail.empty()) {
+            runs.push_back(Run{&log.front(), false, 0});
+            if (sides_known)
+                for (size_t i = 1; i + 1 < log.size(); i++)
+                    if (log[i].side < 0) runs.push_back(Run{&log[i], false, 0});
+            icap1 = runs.size();
+            runs.push_back(Run{&log.back(), false, 0});
+            if (sides_known)
+                for (size_t i = log.size() - 1; i-- > 1;)
+                    if (log[i].side > 0) runs.push_back(Run{&log[i], true, 0});
+            uint64_t pos = 0;
+            for (size_t ri = 0; ri < runs.size() && fail.empty(); ri++) {
+                Run& r = runs[ri];
+                const size_t len = r.size();
+                bool found = false;
+                uint64_t at = 0;
+                for (uint64_t s0 = pos; s0 + len <= of.count && !found; s0++) {
+                    bool m = true;
+                    for (size_t j = 0; j < len && m; j++) m = same_pt(of[s0 + j], r.pt(j));
+                    if (m) { found = true; at = s0; }
+                    if (ri == 0) break;  // the first cap opens the outline
+                }
+                if (!found) {
+                    // say how the points do appear, if they do
+                    std::string how;
+                    for (uint64_t s0 = 0; s0 + len <= of.count && how.empty() && len > 1; s0++) {
+                        bool m = true;
+                        for (size_t j = 0; j < len && m; j++) m = same_pt(of[s0 + j], r.pt(len - 1 - j));
+                        if (m) how = "; they appear in the opposite order at outline index " + std::to_string(s0);
+                    }
+                    if (how.empty()) {
+                        size_t present = 0;
+                        for (size_t j = 0; j < len; j++)
+                            for (uint64_t i = 0; i < of.count; i++)
+                                if (same_pt(of[i], r.pt(j))) { present++; break; }
+                        how = "; " + std::to_string(present) + " of them are somewhere in the outline";
+                    }
+                    const char* key = r.call->type == 0 ? "flexpath-fn-end-order" : (r.call->type == 1 ? "flexpath-fn-join-splice" : "flexpath-fn-bend-splice");
+                    fail = std::string("FAIL ") + key + " element " + std::to_string(e) + ": the " + run_name(ri) + " returned by the callback " +
+                           (ri == 0 ? "do not open the outline in callback order" : (ri == icap1 ? "do not follow the right side in callback order" : "are not in the outline in travelling order after index " + std::to_string(pos))) + how;
+                } else {
+                    r.at = at;
+                    pos = at + len;
+                }
+            }
+        }
+        // the direction handed to the end function against the outline edge that actually arrives at the first point (informational)
+        if (fail.empty() && finite && of.count >= 3 && log.front().ret.size() >= 2) {
+            V edge = unitl(toV(of[0]) - toV(of[of.count - 1]));
+            if (fabsl(crossl(edge, toV(log.front().d0))) > 1e-6L) {
+                em.T("fn:end-direction-differs-from-outline-edge");
+                if (getenv("C07_DUMP"))
+                    fprintf(stderr, " element %d first end: direction handed to the end function %s, the outline edge arriving at the first point runs along %s (sine of the angle %.3Lg)\n", (int)e,
+                            fmtv(toV(log.front().d0)).c_str(), fmtv(edge).c_str(), crossl(edge, toV(log.front().d0)));
+            }
+        }
+
+        // ---- (3) the outline against the outline of the built-in twin: the two vertex lists are walked side by side; outside the runs located
+        // above (and inside the runs of joins and of bends drawn with the library's own arc) they must agree vertex for vertex; a polygonal
+        // cap must agree once its extra collinear points are taken out; a bend drawn with our own point count must share its end points
+        // with the built-in arc, whose points must lie on the circle the callback was asked for
+        bool identical = (d.end_mode != 3 || ((d.k[0] == 2 || d.k[0] == 4) && (d.k[1] == 2 || d.k[1] == 4))) && nbend_npts == 0;
+        if (fail.empty() && has_twin[e]) {
+            std::string twin_name = std::string("the built-in twin (") + end_type_name(twin[e].end) + " / " + join_type_name(twin[e].join) + " / " + bend_type_name(twin[e].bend) + ")";
+            const ld vlim = 1e-9L * scale;
+            if (!finite) em.T("fn:twin-skipped-nan-outline");
+            else if (nbend_npts && !sides_known) em.T("fn:twin-skipped-bend-runs-not-located");
+            else {
+                em.T(identical ? "fn:twin-identical-lists" : "fn:twin-modulo-extra-points");
+                uint64_t i = 0, j = 0;
+                auto same_at = [&](uint64_t fi, uint64_t rj) {
+                    if (!fail.empty()) return;
+                    if (rj >= orf.count)
+                        fail = "FAIL flexpath-fn-twin element " + std::to_string(e) + ": " + twin_name + " has only " + std::to_string(orf.count) + " vertices, the callback outline (" +
+                               std::to_string(of.count) + " vertices) asks for more at its index " + std::to_string(fi);
+                    else if (!nearv(of[fi], toV(orf[rj]), vlim))
+                        fail = "FAIL flexpath-fn-twin element " + std::to_string(e) + ": outline vertex " + std::to_string(fi) + " is " + fmtv(toV(of[fi])) + ", " + twin_name + " has " +
+                               fmtv(toV(orf[rj])) + " at index " + std::to_string(rj);
+                };
+                for (size_t ri = 0; ri <= runs.size() && fail.empty(); ri++) {
+                    uint64_t stop = ri < runs.size() ? runs[ri].at : of.count;
+                    for (; i < stop && fail.empty(); i++, j++) same_at(i, j);
+                    if (ri == runs.size() || !fail.empty()) break;
+                    const Run& r = runs[ri];
+                    uint64_t len = r.size();
+                    if (r.call->type == 0 && d.end_mode == 3) {
+                        // 3 points: the middle one is extra; 5 and more: those between the two far corners are extra
+                        for (uint64_t q = 0; q < len && fail.empty(); q++) {
+                            bool extra = len == 3 ? q == 1 : (len >= 5 && q >= 2 && q + 2 < len);
+                            if (!extra) same_at(i + q, j++);
+                        }
+                        i += len;
+                    } else if (r.call->type == 2 && d.bend_mode == 1) {
+                        uint64_t lc = r.call->lib_count;
+                        if (j + lc > orf.count) {
+                            fail = "FAIL flexpath-fn-twin element " + std::to_string(e) + ": " + twin_name + " ends inside the bend at vertex " + std::to_string(r.call->vertex);
+                            break;
+                        }
+                        if (!nearv(of[i], toV(orf[j]), vlim) || !nearv(of[i + len - 1], toV(orf[j + lc - 1]), vlim))
+                            fail = "FAIL flexpath-fn-twin element " + std::to_string(e) + ": the bend at vertex " + std::to_string(r.call->vertex) + " runs from " + fmtv(toV(of[i])) + " to " +
+                                   fmtv(toV(of[i + len - 1])) + ", in " + twin_name + " from " + fmtv(toV(orf[j])) + " to " + fmtv(toV(orf[j + lc - 1]));
+                        for (uint64_t q = 0; q < lc && fail.empty(); q++)
+                            if (fabsl(lenl(toV(orf[j + q]) - toV(r.call->c)) - (ld)r.call->radius) > vlim)
+                                fail = "FAIL flexpath-fn-twin element " + std::to_string(e) + ": vertex " + std::to_string(j + q) + " of " + twin_name + " is not on the circle the bend function was asked for at vertex " +
+                                       std::to_string(r.call->vertex);
+                        i += len;
+                        j += lc;
+                    }
+                    // other runs (caps with the twin's own points, joins, library arcs): vertex for vertex, by the loop above
+                }
+                if (fail.empty() && j != orf.count)
+                    fail = "FAIL flexpath-fn-twin element " + std::to_string(e) + ": " + twin_name + " has " + std::to_string(orf.count) + " vertices, the callback outline accounts for " + std::to_string(j);
+            }
+        } else if (fail.empty()) em.T("fn:no-twin-one-point-cap");
+        snprintf(buf, sizeof buf, "calls end 2 join %d bend %d outline %llu", njoin, nbend, (unsigned long long)of.count);
+        em.I(buf);
+        em.P(fail.empty() ? "ok" : fail);
+
+        // ---- (4) the callback outline through the exact oracle, with the expectations of the built-in twin
+        if (fail.empty() && has_twin[e] && (identical ? gf.chance(3) : gf.chance(20))) {
+            ElemCfg keep = B.el[e];
+            Rng* gs = B.g;
+            B.el[e] = twin[e];
+            B.g = &gf;
+            region_case(B, e, gid + ":fn", pfn[e], em, "fn:");
+            B.g = gs;
+            B.el[e] = keep;
+        }
+    }
+    release(pref);
+    release(pfn);
 }
 
 // ------------------------------------------------------------------ one path
@@ -1314,6 +1953,7 @@ static void run_path(uint64_t seed, uint64_t idx, const std::string& outdir, FIL
         free_allocation(polys[e]);
     }
     polys.clear();
+    fn_cases(B, gid, seed, idx, em);
     if (directed || g.chance(50)) {
         record_case(B, false, gid, outdir, em);
         record_case(B, true, gid, outdir, em);
@@ -1374,7 +2014,9 @@ static void absorb(Out& out, const std::string& res, const std::string& gid) {
         } else if (tag == 'P') {
             out.P(id, rest);
         } else if (tag == 'T') {
-            out.count(rest);
+            size_t t = rest.find('\t');
+            if (t == std::string::npos) out.count(rest);
+            else out.count(rest.substr(0, t), atol(rest.c_str() + t + 1));
         }
     }
 }
